@@ -869,6 +869,8 @@ func (s *Server) RemoteHello(
 	export, schema, _ := s.Source.Export()
 	s.tracer.calcTrackedStates(export.StateNames)
 	s.tracer.active = true
+	// mutations traced for a previous session are not part of this one
+	s.tracer.dataQueue = nil
 	statesCount := len(export.StateNames)
 	tTrackedSum := export.Time.Filter(s.tracer.trackedStateIdxs).Sum(nil)
 
